@@ -25,5 +25,11 @@ func (pass *ReplaceReference) processRef(_ *Visitor, _ *ast.Schema, def ast.Type
 		return def, nil
 	}
 
-	return ast.NewRef(pass.To.Package, pass.To.Object, ast.Trail(fmt.Sprintf("ReplaceReference[%s → %s]", def.Ref, pass.To))), nil
+	// only the target of the reference changes: its nullability, default and
+	// hints belong to the place where it is used.
+	trail := fmt.Sprintf("ReplaceReference[%s → %s]", def.Ref, pass.To)
+	def.Ref = &ast.RefType{ReferredPkg: pass.To.Package, ReferredType: pass.To.Object}
+	def.AddToPassesTrail(trail)
+
+	return def, nil
 }
